@@ -311,10 +311,12 @@ def _dissector_consumes(tree: Tree, f: Func) -> Tuple[bool, str]:
         return False, "no return"
     p0 = f.params[0]
     rd = reaching_definitions(cfg)
+    from ..dataflow import definite_assignment
+    DA = definite_assignment(cfg)
     for rt in rets:
         defs = rd.get(rt.id, {}).get(f"{p0}.tls_data", set())
-        if not defs:
-            return False, f"a return of {f.name} leaves {p0}.tls_data unchanged"
+        if not defs or f"{p0}.tls_data" not in DA.get(rt.id, set()):
+            return False, f"the return at line {rt.lineno} of {f.name} can be reached without {p0}.tls_data having been consumed (set to b'' or advanced)"
         for dn in defs:
             a = cfg.nodes[dn].ast
             if not isinstance(a, ast.Assign):
